@@ -270,7 +270,9 @@ def cmpId (aMs aSeq bMs bSeq : Nat) : Int :=
   else if aSeq > bSeq then 1 else if aSeq < bSeq then -1 else 0
 
 /-- the ENTRIESREAD estimate for a v1 stream replayed into a ≥ 7 target
-    (first id and max-deleted id are 0-0 there, entriesAdded = length) -/
+    (first id and max-deleted id are 0-0 there, entriesAdded = length), as a
+    uint64; it is SENT as a signed counter (`-1` = SCG_INVALID_ENTRIES_READ —
+    repaired: the unsigned rendering 18446744073709551615 is refused by Redis) -/
 def estimateEntriesRead (entriesAdded streamLength cgMs cgSeq lastMs lastSeq : Nat) : Nat :=
   let invalid := 2 ^ 64 - 1
   if entriesAdded = 0 then 0
@@ -354,10 +356,10 @@ def streamGroups (x : XCfg) (v2 v3 : Bool) (key : Bytes)
       | some ([cgMs, cgSeq], r1) =>
         match (if v2 then
                  (readLength64 r1).map (fun (off, r) =>
-                   ((if x.tgtMajor ≥ 7 then [b!"ENTRIESREAD", natToDec off] else []), r))
+                   ((if x.tgtMajor ≥ 7 then [b!"ENTRIESREAD", intToDec (toSigned 64 off)] else []), r))
                else
                  some ((if x.tgtMajor ≥ 7 then
-                          [b!"ENTRIESREAD", natToDec (estimateEntriesRead entriesAdded streamLength cgMs cgSeq lastMs lastSeq)]
+                          [b!"ENTRIESREAD", intToDec (toSigned 64 (estimateEntriesRead entriesAdded streamLength cgMs cgSeq lastMs lastSeq))]
                         else []), r1)) with
         | none => none
         | some (er, r2) =>
